@@ -3,9 +3,9 @@
 //   * same bytes, return values and resulting size as one plain file holding the logical content
 //   * every request that reaches the file under the aligned adaptor has aligned offset, length and (when asked) memory
 //   * linear / striped: each byte of a request goes to the sub-file and position that hold that logical byte
+#include "../../../repo/fs/virtual-file.cpp"
 #include "../../../repo/fs/aligned-file.cpp"
 #include "../../../repo/fs/xfile.cpp"
-#include <photon/fs/virtual-file.h>
 #include <cstdio>
 #include <cstdlib>
 #include <cstring>
@@ -16,6 +16,7 @@
 #include <sys/stat.h>
 using namespace photon::fs;
 static std::string why;
+static bool GAP_WRITES = false;     // writes that start beyond end-of-file (outside the statement; --gap enables them)
 #define FAIL(...) do { char m_[400]; snprintf(m_, sizeof m_, __VA_ARGS__); why = m_; return false; } while (0)
 static uint64_t rs_;
 static uint64_t rnd() { rs_ ^= rs_ << 13; rs_ ^= rs_ >> 7; rs_ ^= rs_ << 17; return rs_; }
@@ -81,7 +82,7 @@ static bool case_aligned(uint64_t seed, std::string* desc) {
     for (int k = 0; ok && k < nops; k++) {
         int op = rnd() % 4; size_t off = rnd() % (7 * A), cnt = rnd() % (4 * A + 1); if (rnd() % 4 == 0) cnt = (cnt / A) * A; if (rnd() % 4 == 0) off = (off / A) * A;
         // the statement covers requests that start before end-of-file (writes: at or before it)
-        if (op == 0 || op == 2) { if (oracle.empty()) continue; off %= oracle.size(); } else off %= (oracle.size() + 1);
+        if (op == 0 || op == 2) { if (oracle.empty()) continue; off %= oracle.size(); } else off %= (oracle.size() + 1 + (GAP_WRITES ? 3 * A : 0));
         char* buf = raw + 128 + (rnd() % 3 == 0 ? 0 : rnd() % 64); buf = (char*)(((uintptr_t)buf) & ~(uintptr_t)0) ;
         if (rnd() % 2) buf = (char*)((((uintptr_t)raw + 255) & ~(uintptr_t)127));   // an aligned buffer half of the time
         snprintf(b, sizeof b, " %s(off=%zu,cnt=%zu)", op == 0 ? "pread" : op == 1 ? "pwrite" : op == 2 ? "preadv" : "pwritev", off, cnt); *desc += b;
@@ -129,18 +130,20 @@ static bool case_composite(uint64_t seed, std::string* desc) {
     static char raw[4096]; bool ok = true; int nops = 1 + rnd() % 6;
     for (int k = 0; ok && k < nops; k++) {
         if (oracle.empty()) break;
-        int op = rnd() % 2; size_t off = rnd() % oracle.size(), cnt = rnd() % (oracle.size() + 8); if (cnt > 4000) cnt = 4000;
-        snprintf(b, sizeof b, " %s(off=%zu,cnt=%zu)", op ? "pwrite" : "pread", off, cnt); *desc += b;
+        int op = rnd() % 4; bool vec = op >= 2; op &= 1; size_t off = rnd() % oracle.size(), cnt = rnd() % (oracle.size() + 8); if (cnt > 4000) cnt = 4000;
+        snprintf(b, sizeof b, " %s%s(off=%zu,cnt=%zu)", op ? "pwrite" : "pread", vec ? "v" : "", off, cnt); *desc += b;
         ssize_t exp = off >= oracle.size() ? -1 : (ssize_t)std::min(cnt, oracle.size() - off);
         if (op == 0) {
             memset(raw, '#', sizeof raw);
-            ssize_t r = cf->pread(raw, cnt, off);
+            ssize_t r; std::vector<std::string> keep_;
+            if (!vec) r = cf->pread(raw, cnt, off); else { auto v = split_iov(raw, cnt, false, 0, keep_); r = cf->preadv(v.data(), (int)v.size(), off); }
             if (r != exp) { snprintf(b, sizeof b, "returned %zd, expected %zd", r, exp); why = b; ok = false; break; }
             if (exp > 0 && memcmp(raw, oracle.data() + off, exp)) { size_t d = 0; while (raw[d] == oracle[off + d]) d++; snprintf(b, sizeof b, "byte %zu of the read differs from the logical content", d); why = b; ok = false; break; }
             for (size_t i = exp > 0 ? exp : 0; i < sizeof raw; i++) if (raw[i] != '#') { why = "read wrote beyond the bytes it returned"; ok = false; break; }
         } else {
             for (size_t i = 0; i < cnt; i++) raw[i] = 'A' + rnd() % 26;
-            ssize_t r = cf->pwrite(raw, cnt, off);
+            ssize_t r; std::vector<std::string> keep_;
+            if (!vec) r = cf->pwrite(raw, cnt, off); else { auto v = split_iov(raw, cnt, false, 0, keep_); r = cf->pwritev(v.data(), (int)v.size(), off); }
             if (exp > 0) memcpy(&oracle[off], raw, exp);
             if (r != exp) { snprintf(b, sizeof b, "returned %zd, expected %zd", r, exp); why = b; ok = false; break; }
             for (size_t i = 0; i < n; i++) if (files[i].data.size() != sizes[i]) { snprintf(b, sizeof b, "sub-file %zu changed size (%zu -> %zu): a byte went outside it", i, sizes[i], files[i].data.size()); why = b; ok = false; break; }
@@ -161,6 +164,7 @@ int main(int argc, char** argv) {
         else { for (uint64_t s = 0; ok && s < 3000; s++) ok = case_aligned(s, &d) && case_composite(s, &d); }
         printf("%s %s %s\n", ok ? "NOT-REPRODUCED" : "REPRODUCED", d.c_str(), why.c_str()); return 0;
     }
+    if (getenv("C16_GAP_WRITES")) GAP_WRITES = true;
     uint64_t N = argc > 1 ? strtoull(argv[1], 0, 10) : 20000, cases = 0;
     uint64_t seed0 = getenv("VERIF_SEED") ? strtoull(getenv("VERIF_SEED"), 0, 10) : 1;
     for (uint64_t s = 0; s < N; s++) {
